@@ -67,11 +67,9 @@ class Type3TagSim(TagSim):
         if code == 0x00:
             if len(cmd) != 6:
                 return None
-            sc = cmd[2] << 8 | cmd[3]
             own = self.sys
             if not ((cmd[2] in (0xFF, own >> 8)) and (cmd[3] in (0xFF, own & 255))):
                 return None
-            del sc
             rsp = self.idm + self.pmm
             if cmd[4] == 1:
                 rsp += own.to_bytes(2, 'big')
